@@ -21,12 +21,12 @@ RULE = (
     ">= 3 kept individuals in which the reference returns >= 2 seeds or a fitness tie is present"
 )
 ASSUMPTIONS = [
-    "threshold comparisons within 1e-9 relative of the cut accept either answer (different summation order of the mean)",
+    "threshold comparisons within 1e-9 relative of the cut accept either answer (different summation order of the mean) - except when all nearest-better distances are whole numbers: sums are then exact and the strict '>' of the definition is decided exactly",
     "populations in which a fitness tie straddles the truncation cut, or with several best individuals, are only held to the order-independent clauses",
     "truncation keeping zero individuals is outside the statement ('the best one' does not exist)",
 ]
 EXPLANATION = "states = distinct (population, fitness vector, direction, parameters) cases; transitions = applications of cluster()"
-PARAMS = [(2.0, 1.0), (1.0, 0.5), (3.0, 0.7), (1.5, 0.34), (0.0, 1.0), (0.0, 0.7)]
+PARAMS = [(2.0, 1.0), (1.0, 0.5), (3.0, 0.7), (1.5, 0.34), (0.0, 1.0), (0.0, 0.7), (1.0, 1.0)]
 
 _P = {}
 
@@ -86,6 +86,8 @@ def check_case(res, genomes, fits, maximize, factor, trunc, tag, meta=False):
         res.nontrivial.add(h64(case))
     if maybe:
         res.flags["case with a distance inside the guard band"] += 1
+    if d and factor > 0 and any(v == factor * float(np.mean(list(d.values()))) for v in d.values()) and not maybe:
+        res.flags["case with a distance exactly on the cut (decided strictly)"] += 1
     ok = sure <= got <= (sure | maybe)
     if not ok and nbest > 1:
         # several best individuals: the statement does not say which of them is 'the best one';
@@ -171,6 +173,8 @@ def units(tier, seed):
     add((3, 3), (4, 5) if q else (4, 5, 6), [0, 1], [0, 2] if q else list(range(4)), chunk=6 if q else 2)
     add((3, 3), (2, 3, 4), [0], [0, 2], meta=True, chunk=8)
     add((6,), (2, 3, 4), [0, 1], list(range(4)), chunk=30)
+    # points on a line at whole-number positions: nearest-better distances that EQUAL factor x mean exactly (not seeds: '>' is strict)
+    add((8,), (3, 4, 5), [0], [0, 6], chunk=12)
     add((2, 2, 2), (2, 3, 4), [0, 1], list(range(4)), chunk=20)
     if not q:
         for k in range(48):
